@@ -626,7 +626,24 @@ def ex_JoinedStr(self, node, fr):
                 if isinstance(fs, ast.JoinedStr) and all(isinstance(x, ast.Constant) for x in fs.values):
                     spec = ''.join(str(x.value) for x in fs.values)
                 else:
-                    spec = ast.unparse(fs)
+                    # nested fields (`{x:<{WIDTH}}`): known constants are written out
+                    parts_, ok_ = [], isinstance(fs, ast.JoinedStr)
+                    for x in (fs.values if ok_ else []):
+                        if isinstance(x, ast.Constant):
+                            parts_.append(str(x.value))
+                        elif isinstance(x, ast.FormattedValue) and x.format_spec is None and x.conversion in (-1, None):
+                            xv = self.ev(x.value, fr)
+                            c_ = xv.const()
+                            xa_ = xv.single_atom()
+                            if c_ is not None and c_.denominator == 1:
+                                parts_.append(str(int(c_)))
+                            elif xa_ is not None and xa_.kind == 'str':
+                                parts_.append(xa_.args[0])
+                            else:
+                                ok_ = False
+                        else:
+                            ok_ = False
+                    spec = ''.join(parts_) if ok_ else ast.unparse(fs)
             if v.conversion not in (-1, None):
                 spec = '!' + chr(v.conversion) + spec
             parts.append(T.mk_call('fmt', [self.ev(v.value, fr), lift(spec)]))
